@@ -171,7 +171,13 @@ fn run_text(text: &str) -> Sexp {
             tagged(
                 "program",
                 vec![guarded(|| match Program::from_str(text) {
-                    Ok(_) => ok(vec![]),
+                    Ok(p) => {
+                        // what `quil-cli parse` does next with the parsed program: print it
+                        let _ = p.to_quil().map_err(|e| e.to_string());
+                        let _ = p.to_quil_or_debug();
+                        let _ = format!("{p:?}");
+                        ok(vec![])
+                    }
                     Err(e) => {
                         consume_error(&e);
                         err()
@@ -191,7 +197,11 @@ fn run_text(text: &str) -> Sexp {
             tagged(
                 "expression",
                 vec![guarded(|| match Expression::from_str(text) {
-                    Ok(e) => ok(vec![expr_to_sexp(&e)]),
+                    Ok(e) => {
+                        // `quil-cli parse -t expression` prints it
+                        let _ = e.to_quil().map_err(|e| e.to_string());
+                        ok(vec![expr_to_sexp(&e)])
+                    }
                     Err(e) => {
                         consume_error(&e);
                         err()
@@ -218,6 +228,69 @@ fn run_text(text: &str) -> Sexp {
                     }
                 })],
             ),
+            // extra coverage, specification only ("does not panic"; the results are not compared): every
+            // other public `FromStr` of the crate that reads Quil text
+            tagged(
+                "extra",
+                vec![guarded(|| {
+                    match quil_rs::instruction::ExternSignature::from_str(text) {
+                        Ok(sig) => {
+                            let _ = sig.to_quil().map_err(|e| e.to_string());
+                            let _ = format!("{sig:?}");
+                        }
+                        Err(e) => consume_error(&e),
+                    }
+                    match quil_rs::reserved::ReservedToken::from_str(text) {
+                        Ok(t) => {
+                            let _ = t.to_string();
+                        }
+                        Err(e) => consume_error(&e),
+                    }
+                    let _ = Command::from_str(text).map(|c| c.to_string());
+                    let _ = DataType::from_str(text).map(|c| c.to_string());
+                    let _ = Modifier::from_str(text).map(|c| c.to_string());
+                    let _ = verif_hooks::KeywordToken::from_str(text).map(|c| c.to_string());
+                    let _ = quil_rs::instruction::PauliGate::from_str(text).map(|c| c.to_string());
+                    let _ = quil_rs::validation::identifier::validate_identifier(text).map_err(|e| e.to_string());
+                    let _ = quil_rs::validation::identifier::validate_user_identifier(text).map_err(|e| e.to_string());
+                    tagged("done", vec![])
+                })],
+            ),
+        ],
+    )
+}
+
+/// Very large inputs (10^5–10^6 characters): specification only — the quadratic lexer / parser models
+/// are not run on them; the input carries the class `Program::from_str` must return.
+fn run_big(text: &str) -> Sexp {
+    tagged(
+        "big",
+        vec![
+            guarded(|| match Program::from_str(text) {
+                Ok(p) => {
+                    let _ = p.to_quil().map_err(|e| e.to_string());
+                    tagged("ok", vec![])
+                }
+                Err(e) => {
+                    consume_error(&e);
+                    tagged("err", vec![])
+                }
+            }),
+            guarded(|| {
+                if let Err(e) = Instruction::from_str(text) {
+                    consume_error(&e);
+                }
+                if let Err(e) = Expression::from_str(text) {
+                    consume_error(&e);
+                }
+                if let Err(e) = MemoryReference::from_str(text) {
+                    consume_error(&e);
+                }
+                if let Err(e) = FrameIdentifier::from_str(text) {
+                    consume_error(&e);
+                }
+                tagged("done", vec![])
+            }),
         ],
     )
 }
@@ -233,6 +306,7 @@ fn handler(payload: &Sexp) -> Sexp {
                 }
             }
             [Sexp::Atom(k), _, Sexp::Str(text)] if k == "text" => run_text(text),
+            [Sexp::Atom(k), _, _, Sexp::Str(text)] if k == "bigtext" => run_big(text),
             _ => tagged("garbled-payload", vec![]),
         },
         _ => tagged("garbled-payload", vec![]),
@@ -307,6 +381,11 @@ impl Gen<'_> {
     fn toks(&mut self, stream: &str, tokens: &[Token]) {
         let input = tagged("toks", vec![atom(stream), list(tokens.iter().map(token_sexp).collect())]);
         self.push(input, tokens.len() > 2000);
+    }
+    /// a very large text, checked against the expected class of `Program::from_str` only
+    fn bigtext(&mut self, stream: &str, expected: &str, text: &str) {
+        let input = tagged("bigtext", vec![atom(stream), atom(expected), st(text)]);
+        self.push(input, true);
     }
     fn text(&mut self, stream: &str, text: &str) {
         let input = tagged("text", vec![atom(stream), st(text)]);
@@ -673,6 +752,190 @@ fn error_positions() -> Vec<String> {
     v
 }
 
+/// One sample of every instruction kind (and of every DEFGATE specification kind), as the lines of a
+/// block body would spell it: continuation lines are indented by exactly one tab, like the body itself.
+const KIND_SAMPLES: &[&str] = &[
+    "ADD a 1",
+    "AND a b",
+    "DEFCAL Z q:\n\tNOP",
+    "CALL f a 1",
+    "CAPTURE 0 \"f\" w(a: 1) ro",
+    "DEFCIRCUIT D(%p) r:\n\tRX(%p) r",
+    "CONVERT a b",
+    "EQ a b c",
+    "DECLARE m REAL[2] SHARING n OFFSET 1 BIT",
+    "DELAY 0 \"f\" 1.5",
+    "EXCHANGE a b",
+    "FENCE 0 1",
+    "DEFFRAME 0 \"f\":\n\tSAMPLE-RATE: 1.0\n\tDIRECTION: \"tx\"",
+    "CONTROLLED RX(pi/2) 1 q",
+    "DEFGATE G(%a) AS MATRIX:\n\t1, 0\n\t0, %a",
+    "DEFGATE P AS PERMUTATION:\n\t1, 0",
+    "DEFGATE S p q AS PAULI-SUM:\n\tXY(1.0) p q",
+    "DEFGATE Q p AS SEQUENCE:\n\tH p",
+    "HALT",
+    "INCLUDE \"file\"",
+    "JUMP @l",
+    "JUMP-UNLESS @l a",
+    "JUMP-WHEN @l a[1]",
+    "LABEL @l",
+    "LOAD a b c",
+    "DEFCAL MEASURE 2 dst:\n\tNOP",
+    "MEASURE !n 0 ro[1]",
+    "MOVE a -1.5",
+    "NOP",
+    "PRAGMA a b 1 \"d\"",
+    "PRAGMA EXTERN f \"INTEGER (a : INTEGER)\"",
+    "NONBLOCKING PULSE 0 1 \"f\" w",
+    "RAW-CAPTURE 0 \"f\" 1 ro",
+    "RESET q",
+    "SET-FREQUENCY 0 \"f\" 1",
+    "SET-PHASE 0 \"f\" pi",
+    "SET-SCALE 0 \"f\" 1",
+    "SHIFT-FREQUENCY 0 \"f\" 1",
+    "SHIFT-PHASE 0 \"f\" -pi",
+    "STORE a b 1",
+    "SWAP-PHASES 0 \"f\" 1 \"g\"",
+    "NOT a",
+    "DEFWAVEFORM w(%a):\n\t1, %a, 2i",
+    "WAIT",
+];
+
+/// The three kinds of body-carrying definition, as headers.
+const BODY_HEADS: [&str; 3] = ["DEFCAL X 0:", "DEFCAL MEASURE 0 addr:", "DEFCIRCUIT C(%t) q:"];
+
+/// `sample` as the last line of a body nested in the given headers (outermost first).  Every level is a
+/// block: each of its lines is `NewLine Indentation instruction`, so one tab per line at every depth.
+fn nested_in(heads: &[&str], sample: &str) -> String {
+    let mut s = String::new();
+    for h in heads {
+        s.push_str(h);
+        s.push_str("\n\t");
+    }
+    s.push_str(sample);
+    s.push('\n');
+    s
+}
+
+/// Duplicate definitions of every kind `Program` keys (same key, different value, then the first again),
+/// and PRAGMA EXTERN in every arity.
+const DUPLICATES: &[&str] = &[
+    "DECLARE a BIT\nDECLARE a REAL[3]\nDECLARE a BIT",
+    "DECLARE a BIT[2] SHARING b\nDECLARE a BIT[2] SHARING b OFFSET 1 BIT\nDECLARE b BIT[8]",
+    "DEFGATE G:\n\t1, 0\n\t0, 1\nDEFGATE G AS PERMUTATION:\n\t1, 0\nDEFGATE G:\n\t1, 0\n\t0, 1\nG 0",
+    "DEFGATE G p AS SEQUENCE:\n\tH p\nDEFGATE G p AS PAULI-SUM:\n\tX(1) p\nDEFGATE G p AS SEQUENCE:\n\tG p",
+    "DEFCAL X 0:\n\tNOP\nDEFCAL X 0:\n\tWAIT\nDEFCAL X q:\n\tNOP\nDEFCAL DAGGER X 0:\n\tNOP\nDEFCAL X 0:\n\tNOP",
+    "DEFCAL RX(pi) 0:\n\tNOP\nDEFCAL RX(pi/1) 0:\n\tWAIT\nDEFCAL RX(%t) 0:\n\tNOP\nDEFCAL RX(%t) 0:\n\tWAIT",
+    "DEFCAL MEASURE 0 a:\n\tNOP\nDEFCAL MEASURE 0 b:\n\tWAIT\nDEFCAL MEASURE q a:\n\tNOP\nDEFCAL MEASURE !n 0 a:\n\tNOP\nDEFCAL MEASURE 0 a:\n\tNOP\nDEFCAL MEASURE 0:\n\tNOP",
+    "DEFCIRCUIT C q:\n\tX q\nDEFCIRCUIT C(%a) q r:\n\tRX(%a) q\nDEFCIRCUIT C q:\n\tX q",
+    "DEFFRAME 0 \"f\":\n\tA: 1\nDEFFRAME 0 \"f\":\n\tA: 2\n\tB: \"s\"\nDEFFRAME 1 0 \"f\":\n\tA: 1\nDEFFRAME 0 \"f\":\n\tA: 1",
+    "DEFWAVEFORM w:\n\t1, 2\nDEFWAVEFORM w(%a):\n\t%a\nDEFWAVEFORM w/x:\n\t1\nDEFWAVEFORM w:\n\t1, 2",
+    "LABEL @a\nLABEL @a\nJUMP @a\nJUMP @b",
+    "PRAGMA EXTERN",
+    "PRAGMA EXTERN f",
+    "PRAGMA EXTERN \"INTEGER\"",
+    "PRAGMA EXTERN f \"INTEGER\"",
+    "PRAGMA EXTERN f \"(a : INTEGER)\"\nCALL f 1",
+    "PRAGMA EXTERN f \"INTEGER (a : mut REAL[3], b : BIT[])\"\nDECLARE r INTEGER\nDECLARE x REAL[3]\nDECLARE y BIT[4]\nCALL f r x y",
+    "PRAGMA EXTERN f g \"INTEGER\"",
+    "PRAGMA EXTERN f g h \"INTEGER\"",
+    "PRAGMA EXTERN f 1 \"INTEGER\"",
+    "PRAGMA EXTERN 1 f",
+    "PRAGMA EXTERN f g",
+    "PRAGMA EXTERN f \"\"",
+    "PRAGMA EXTERN f \"not a signature (\"",
+    "PRAGMA EXTERN f \"INTEGER (DEFGATE : INTEGER)\"",
+    "PRAGMA EXTERN f \"INTEGER\"\nPRAGMA EXTERN f \"REAL\"\nPRAGMA EXTERN g \"BIT\"\nPRAGMA EXTERN f \"INTEGER\"",
+    "PRAGMA EXTERN f g \"INTEGER\"\nPRAGMA EXTERN f h \"REAL\"\nPRAGMA EXTERN \"BIT\"\nPRAGMA EXTERN \"OCTET\"\nPRAGMA EXTERN\nPRAGMA EXTERN",
+    "PRAGMA extern f \"INTEGER\"\nPRAGMA Extern f \"INTEGER\"\nPRAGMA EXTERNAL f",
+    "DEFCAL X 0:\n\tPRAGMA EXTERN f \"INTEGER\"\n\tCALL f 1\nPRAGMA EXTERN f \"REAL\"\nX 0",
+];
+
+/// Names that some stage treats specially, in every letter case, in every position that takes a name.
+fn special_names() -> Vec<String> {
+    let names = ["pi", "i", "sin", "cos", "sqrt", "exp", "cis", "mut", "as", "matrix", "nonblocking", "bit", "h", "measure"];
+    let mut v = Vec::new();
+    for n in names {
+        let upper = n.to_uppercase();
+        let mut mixed = n.to_string();
+        mixed[..1].make_ascii_uppercase();
+        for name in [n.to_string(), upper, mixed] {
+            v.push(format!("RX({name}) 0"));
+            v.push(format!("RX({name}(1)) 0"));
+            v.push(format!("RX(2*{name}[1]) 0"));
+            v.push(format!("{name} 0"));
+            v.push(format!("X {name}"));
+            v.push(format!("MOVE {name} 1"));
+            v.push(format!("DECLARE {name} BIT"));
+            v.push(format!("CALL {name} {name} 1"));
+            v.push(format!("DELAY {name} {name}"));
+            v.push(format!("DEFGATE {name} {name} AS PAULI-SUM:\n\tX(1) {name}"));
+            v.push(format!("PULSE 0 \"f\" {name}({name}: {name})"));
+            v.push(format!("PRAGMA {name} {name}"));
+            v.push(format!("DEFCIRCUIT {name}(%{name}) {name}:\n\tNOP"));
+            v.push(format!("JUMP @{name}"));
+            v.push(name.clone());
+            v.push(format!("{name}[0]"));
+            v.push(format!("0 \"{name}\""));
+        }
+    }
+    v
+}
+
+/// Unusual characters and layouts: BOM, zero-width and other Unicode spaces / separators, NUL and other
+/// control characters, CR / CRLF mixtures, tab / space indentation mixtures, unterminated strings and
+/// comments at the end of input.
+fn odd_characters() -> Vec<String> {
+    let mut v = Vec::new();
+    let odd = [
+        "\u{FEFF}", "\u{200B}", "\u{200D}", "\u{2028}", "\u{2029}", "\u{85}", "\u{A0}", "\u{0}", "\u{1}", "\u{7F}", "\u{B}", "\u{C}",
+        "\u{1B}", "\u{FFFD}", "\u{10FFFF}", "\u{E000}",
+    ];
+    for o in odd {
+        for t in [
+            format!("{o}"),
+            format!("{o}X 0"),
+            format!("X 0{o}"),
+            format!("X{o}0"),
+            format!("X {o} 0"),
+            format!("X 0\n{o}\nY 1"),
+            format!("PRAGMA a \"x{o}y\""),
+            format!("X 0 # c{o}c\nY 1"),
+            format!("DEFCAL X 0:\n\t{o}NOP"),
+            format!("DEFCAL X 0:\n{o}\tNOP"),
+            format!("RX({o}1) 0"),
+            format!("0 \"{o}\""),
+            format!("a{o}[0]"),
+        ] {
+            v.push(t);
+        }
+    }
+    // line endings
+    let program = ["DECLARE ro BIT[2]", "DEFCAL X 0:", "\tNOP", "\tPULSE 0 \"f\" w", "X 0", "MEASURE 0 ro[0]", "# done"];
+    for eol in ["\n", "\r\n", "\r", "\n\r", "\r\r\n", "\n\n", "\r\n\r\n", ";", ";\n", " \n", "\t\n", " \r\n "] {
+        v.push(program.join(eol));
+        v.push(format!("{}{eol}", program.join(eol)));
+    }
+    v.push(format!("X 0\r\nY 1\nZ 2\rH 3\n\rS 4"));
+    // indentation mixtures in a body
+    for indent in ["\t", "    ", "  ", "   ", "     ", "        ", "\t\t", "\t    ", "    \t", " \t", "\t ", ""] {
+        v.push(format!("DEFCAL X 0:\n{indent}NOP\n{indent}WAIT\nY 1"));
+        v.push(format!("DEFCAL X 0:\n\tNOP\n{indent}WAIT"));
+        v.push(format!("DEFGATE G:\n{indent}1, 0\n{indent}0, 1"));
+        v.push(format!("DEFFRAME 0 \"f\":\n{indent}A: 1"));
+        v.push(format!("{indent}X 0\n{indent}Y 1"));
+        v.push(format!("DEFCIRCUIT C q:\n{indent}DEFCAL X q:\n{indent}{indent}NOP"));
+    }
+    // unterminated things at the end of input
+    for t in [
+        "\"abc", "X 0 \"", "PRAGMA a \"x\\\"", "\"\\", "PRAGMA a \"x\\", "# c", "X 0 #", "#", "X 0 # c\r", "\"a\nb", "PRAGMA a \"a\nb\"",
+        "DEFCAL X 0:\n\t# c", "DEFCAL X 0:\n\t\"", "RX(\"", "@", "%", "a[", "0 \"", "1.", "1e", "0x", "@a-", "a-",
+    ] {
+        v.push(t.to_string());
+    }
+    v
+}
+
 fn mutate_text(rng: &mut Rng, text: &str) -> String {
     const INSERT: [char; 24] = [
         '(', ')', '[', ']', ',', ':', ';', '\n', '\t', ' ', '"', '\\', '#', '-', '+', '*', '/', '^', '%', '@', '!', '0',
@@ -826,6 +1089,110 @@ fn run(ctx: &mut Ctx) {
     // (vi) error positions at the end of input, on empty lines, after \r\n, with tabs
     for t in error_positions() {
         g.text("errpos", &t);
+    }
+
+    // (vii) what Program::from_str runs AFTER parsing (add_instructions → get_qubits, calibration /
+    // frame / extern-pragma insertion, …) and what quil-cli does with the result (to_quil): every
+    // instruction kind nested in every kind of body, 1–3 levels deep; duplicate definitions of every
+    // kind; PRAGMA EXTERN in every arity
+    for sample in KIND_SAMPLES {
+        g.text("nested", &format!("{sample}\n"));
+        for a in BODY_HEADS {
+            g.text("nested", &nested_in(&[a], sample));
+            for b in BODY_HEADS {
+                g.text("nested", &nested_in(&[a, b], sample));
+            }
+        }
+    }
+    for (k, sample) in KIND_SAMPLES.iter().enumerate() {
+        // third level: all 27 head combinations in thorough, a rotating third of them in quick
+        let mut n = 0;
+        for a in BODY_HEADS {
+            for b in BODY_HEADS {
+                for c in BODY_HEADS {
+                    n += 1;
+                    if quick && (n + k) % 3 != 0 {
+                        continue;
+                    }
+                    g.text("nested", &nested_in(&[a, b, c], sample));
+                }
+            }
+        }
+    }
+    // a body holding every kind at once, and the same nested once more
+    let all_kinds: String = KIND_SAMPLES.iter().map(|k| format!("\t{k}\n")).collect();
+    for a in BODY_HEADS {
+        g.text("nested", &format!("{a}\n{all_kinds}"));
+        g.text("nested", &format!("{a}\n{all_kinds}{}", KIND_SAMPLES.join("\n")));
+    }
+    for d in DUPLICATES {
+        g.text("dups", d);
+        for a in BODY_HEADS {
+            g.text("dups", &format!("{d}\n{a}\n\t{}\n{d}", d.replace('\n', "\n\t")));
+        }
+    }
+    // (viii) specially treated names in every letter case, in every position
+    for t in special_names() {
+        g.text("names", &t);
+    }
+    // (ix) odd characters, line endings, indentation mixtures, unterminated tokens at EOF
+    for t in odd_characters() {
+        g.text("odd", &t);
+    }
+    // (x) very long tokens and very many instructions
+    let long = if quick { 20_000 } else { 200_000 };
+    for (expected, t) in [
+        ("ok", format!("{} 0", "G".repeat(long))),
+        ("ok", format!("X {}", "q".repeat(long))),
+        ("ok", format!("PRAGMA a \"{}\"", "s\\\"\u{e9}".repeat(long / 4))),
+        ("ok", format!("X 0 # {}", "c\u{91cf}".repeat(long / 4))),
+        ("err", format!("MOVE ro {}", "9".repeat(long))),
+        ("ok", format!("MOVE ro 0.{}", "3".repeat(long))),
+        ("ok", format!("MOVE ro {}.5", "0".repeat(long))),
+        ("err", format!("MOVE ro 1e{}", "9".repeat(long))),
+        ("ok", format!("MOVE ro 1{}", "_".repeat(long))),
+        ("ok", format!("MOVE ro 0x{}1", "0".repeat(long))),
+        ("ok", format!("JUMP @{}", "l-".repeat(long / 2) + "l")),
+        ("ok", format!("RX(%{}) 0", "v".repeat(long))),
+        ("ok", format!("RX({}1) 0", "1+".repeat(long / 2))),
+        ("ok", format!("X 0{}", ";X 0".repeat(long / 4))),
+        ("ok", format!("X{}", " 0".repeat(long / 2))),
+        ("ok", format!("DEFCAL X 0:{}", "\n\tNOP".repeat(long / 5))),
+        ("ok", format!("DECLARE ro BIT SHARING x OFFSET{}", " 1 BIT".repeat(long / 6))),
+        ("ok", format!("PRAGMA a{}", " b 1".repeat(long / 4))),
+        ("ok", format!("CALL f{}", " 1 a[0] -2i".repeat(long / 10))),
+        ("ok", format!("DELAY{} 1", " 0".repeat(long / 2))),
+        ("err", format!("DELAY{}", " q".repeat(long / 20))),
+        ("ok", format!("{}X 0", "\n".repeat(long))),
+        ("ok", format!("{}X 0", " ".repeat(long))),
+        ("err", format!("{}$", "X 0\n".repeat(long / 4))),
+        ("err", format!("{}\u{e9}", "a".repeat(long))),
+        ("err", format!("\"{}", "a\u{416}".repeat(long / 3))),
+    ] {
+        g.bigtext("big", expected, &t);
+    }
+    if !quick {
+        g.bigtext("big", "ok", &format!("X 0{}", ";X 0".repeat(100_000)));
+        g.bigtext("big", "ok", &format!("{} 0", "G".repeat(1_000_000)));
+        g.bigtext("big", "ok", &format!("PRAGMA a \"{}\"", "s".repeat(1_000_000)));
+    }
+    // the same shapes small enough for the models
+    for (n, stream) in [(300usize, "longtok")] {
+        for t in [
+            format!("{} 0", "G".repeat(n)),
+            format!("MOVE ro {}", "9".repeat(n)),
+            format!("MOVE ro 0.{}", "3".repeat(n)),
+            format!("MOVE ro 1e{}", "9".repeat(n)),
+            format!("MOVE ro 1{}", "_".repeat(n)),
+            format!("X 0{}", ";X 0".repeat(n)),
+            format!("DEFCAL X 0:{}", "\n\tNOP".repeat(n)),
+            format!("DELAY{} 1", " 0".repeat(n)),
+            format!("DELAY{}", " q".repeat(n)),
+            format!("CALL f{}", " 1 a[0] -2i".repeat(n)),
+            format!("RX({}1) 0", "1+".repeat(n)),
+        ] {
+            g.text(stream, &t);
+        }
     }
 
     // (2a) exhaustive token sequences
